@@ -28,6 +28,7 @@ Guarded == \/ Is("Connect") /\ Step /\ Connect(Ev.c)
            \/ Is("DeliverB") /\ Step /\ DeliverB
            \/ Is("Accept") /\ Step /\ Accept
            \/ Is("AcceptSend") /\ Step /\ AcceptSend
+           \/ Is("Greeting") /\ Step /\ Greeting(Ev.sent, Ev.got)
            \/ Is("CloseClient") /\ Step /\ CloseClient(Ev.c)
            \/ Is("RecvNone") /\ Step /\ RecvNone(Ev.c)
            \/ Is("CloseAcc") /\ Step /\ CloseAcc(Ev.i)
